@@ -230,7 +230,7 @@ def soak_cases(tier, seed):
     """one object used for a long time: a thousand and more calls over the whole operation library on one client, every few of
     them hit by a fault, clock advances in between - each call still consumes its own replies only"""
     lib = op_library()
-    n = 1200 if tier == "quick" else 10000
+    n = 1200 if tier == "quick" else 4000
     faults = [{"kind": "recv", "nth": 0, "what": "reset"}, {"kind": "recv", "nth": 0, "what": "timeout"}, {"reply": 0, "tamper": "garbage"}, {"reply": 0, "tamper": "error"},
               {"kind": "sendall", "nth": 0, "what": "pipe", "delivered": "none"}, {"reply": 0, "tamper": "trunc", "at": 2, "then": "eof"}, {"kind": "connect", "nth": 0, "what": "refused"}]
     for ki, (kind, ns_) in enumerate((("client", 1), ("pooled", 1), ("hash", 2), ("hash-pooled", 2), ("aws", 1))):
